@@ -107,3 +107,52 @@ def _make_trough(name, virtual_rows, columns, min_volume, max_volume, initial_vo
     comp = lw.composition
     res["one-100%-component-per-filled-column"] = set(comp) == set(want) and all(np.array_equal(comp[k], want[k]) for k in want)
     return res
+
+
+def _make_plan(xmin, xmax, R, C, stock, mode, vmax, min_transfer):
+    """builds a real DilutionPlan and evaluates the clauses of the planning contract on it (exact Fraction arithmetic for
+    the implied concentrations; compared leniently because float rounding is outside the model)"""
+    import math
+    from fractions import Fraction as Fr
+
+    import numpy as np
+    from robotools import DilutionPlan
+
+    plan = DilutionPlan(xmin=xmin, xmax=xmax, R=R, C=C, stock=stock, mode=mode, vmax=vmax, min_transfer=min_transfer)
+    vm = [float(v) for v in np.atleast_1d(vmax)]
+    if len(vm) == 1:
+        vm = vm * C
+
+    def close(a, b):
+        a, b = float(a), float(b)
+        return math.isfinite(a) and math.isfinite(b) and abs(a - b) <= 1e-9 + 1e-9 * max(abs(a), abs(b))
+
+    res = {}
+    ins = list(plan.instructions)
+    shape_ok = len(ins) == C and [i[0] for i in ins] == list(range(C)) and all(len(np.atleast_1d(i[3])) == R for i in ins)
+    res["whole-bounded-volumes"] = shape_ok and all(
+        float(v) == round(float(v)) and min_transfer <= float(v) <= vm[c] for c, _, _, vs in ins for v in np.atleast_1d(vs))
+    steps, src_ok = {}, shape_ok
+    for c, d, src, _ in ins:
+        if isinstance(src, str):
+            src_ok = src_ok and src == "stock" and d == 0
+        else:
+            src_ok = src_ok and isinstance(src, (int, np.integer)) and 0 <= src < c and src in steps and d == steps[src] + 1
+        steps[c] = d
+    res["prepared-from-stock-or-earlier-column"] = bool(src_ok)
+    if src_ok:
+        conc = {}
+        for c, d, src, vs in ins:
+            vs = [Fr(float(v)) for v in np.atleast_1d(vs)]
+            conc[c] = [v / Fr(vm[c]) * Fr(float(stock)) if isinstance(src, str) else v * conc[src][r] / Fr(vm[c]) for r, v in enumerate(vs)]
+        flat = [conc[c][r] for c in range(C) for r in range(R)]
+        x = np.asarray(plan.x)
+        res["reported-concentrations"] = (x.shape == (R, C) and all(close(x[r, c], conc[c][r]) for c in range(C) for r in range(R))
+                                          and close(plan.xmin, min(flat)) and close(plan.xmax, max(flat)))
+        vstock = sum(float(v) for _, d, src, vs in ins if isinstance(src, str) for v in np.atleast_1d(vs))
+        res["reported-totals"] = (plan.R == R and plan.C == C and plan.N == R * C and [float(v) for v in plan.vmax] == vm and close(plan.v_stock, vstock)
+                                  and close(plan.v_diluent, R * sum(vm) - vstock) and plan.max_steps == max(steps.values()))
+    else:
+        res["reported-concentrations"] = False
+        res["reported-totals"] = False
+    return res
